@@ -93,8 +93,23 @@ var errorType = reflect.TypeOf((*error)(nil)).Elem()
 // errorVals: messages that are empty, one character, ordinary, astral, and not text at all (invalid UTF-8: the
 // stream must still be well-formed, i.e. the error tag followed by a string; what the replacement text is, is
 // not prescribed, so those values are only parsed, see runType)
+// nilSafeErr speaks for a nil receiver: a typed nil pointer of it is an error like any other (err != nil)
+type nilSafeErr struct{ msg string }
+
+func (e *nilSafeErr) Error() string {
+	if e == nil {
+		return "nil-safe"
+	}
+	return e.msg
+}
+
 func errorVals() []reflect.Value {
 	var out []reflect.Value
+	for _, e := range []error{(*nilSafeErr)(nil), &nilSafeErr{"set"}} {
+		v := reflect.New(errorType).Elem()
+		v.Set(reflect.ValueOf(e))
+		out = append(out, v)
+	}
 	for _, m := range []string{"", "x", "boom", "你好 \"q\";{}", "😀", "bad \xff msg", "\xf0\x9f", "\xff", "ok then \xe4\xbd"} {
 		v := reflect.New(errorType).Elem()
 		v.Set(reflect.ValueOf(errors.New(m)))
